@@ -127,6 +127,25 @@ check("C17",
       "Bound: the length pairs listed in the evidence (scan and hash path, boundary 99/100/101); symmetry asserted for |A|*|B|<=30. The genuine defect found here ((overlap () (1 2)) type error) is fixed in /repo. " + TRUST,
       "SSA symbolic execution + SMT with symbolic-key maps (lazy path forking)", "DESIGN.md §4 C17")
 
+check("C06",
+      "Every implicit run-time check of the Go code (index/slice bounds, nil dereference, failed type assertion, == on uncomparable dynamic types, "
+      "integer division by zero, makeslice, send on nil/full channel) is a solver obligation on every symbolic path of (a) Compile on texts of "
+      "arbitrary characters (Latin-1 as solver variables + selected Unicode), alone and inside 11 syntactic contexts, both notations; (b) the parser "
+      "driven below the lexer on every token vector up to the bound; (c) Eval/TryEval/Dump/DumpTable with variables bound to ANY supported type "
+      "incl. lists and nil, events on/off with LOOP positions asserted strictly increasing. A sat answer is replayed through the public API.",
+      "Bound: texts <=2 (3 thorough) characters and 1-2 characters in context; token vectors <=3 infix / <=4 prefix (4/5 thorough, 6 for common openings); "
+      "shapes <=1 internal node with all variables any-typed, <=2 with one. Five genuine panic defects found here are fixed in /repo (known_findings.json). " + TRUST,
+      "SSA symbolic execution with panic/hang edges as obligations + SMT, native replay", "DESIGN.md §4 C06")
+check("C19",
+      "Version texts are built from arbitrary decimal digits (solver variables) in concrete skeletons with 1..5 components of 1/4/5 digits; "
+      "strings.Split and strconv.ParseInt are executed symbolically on them; for all digit values: components <=9999 => accepted and the encoded "
+      "integers compare exactly like the component-wise comparison (missing = 0, beyond N ignored), a component >=10000 / non-digit / empty "
+      "component / valid length outside 1..4 (arbitrary int64) / wrong parameter types => rejected. The order query (res*10000+v) is decided by cvc5 "
+      "--solve-bv-as-int=sum. Dates: time.Parse is an uninterpreted function, so for EVERY text each of the 8 operators is shown to parse with "
+      "exactly the documented/supplied layout and return that parse's Unix seconds; plus 132 concrete texts against independently computed Unix seconds.",
+      "Chronological monotonicity of time.Parse∘Unix itself is a standard-library property and is NOT decided (assumption). Signed components are outside the stated domain. " + TRUST,
+      "SSA symbolic execution + SMT (cvc5 bit-vectors solved as integers), uninterpreted time.Parse", "DESIGN.md §4 C19")
+
 def main():
     checks = []
     for pid in ALL:
